@@ -562,6 +562,21 @@ theorem rescale_primitives_source_eq_model (lg ex : K → K) (x xmin xmax : K) :
 example : Gen.RescaleTx.rescale_minus_one_to_one (fun x => x) (fun x => x) (3 : ℚ) 1 5 = (0, 1 / 2) := by
   norm_num [Gen.RescaleTx.rescale_minus_one_to_one]
 
+/-- `determine_rescaled_bounds` (the prime-prior bounds of `RescaleToBounds`: every branch on `inversion` and on the edge,
+the offset, the rescale bounds, both `ValueError`s), generated from the current source in continuation style, is the model's
+`determineRescaledBounds` for every argument (ordered field: the literals `-0.5`, `1.5`, `2` need characteristic 0). -/
+theorem determine_rescaled_bounds_source_eq_model [IsStrictOrderedRing K] (pmin pmax xmin xmax : K) (invert : Edge)
+    (inversion : Bool) (offset r0 r1 : K) :
+    Gen.RescaleTx.determine_rescaled_bounds pmin pmax xmin xmax invert inversion offset r0 r1 =
+      determineRescaledBounds pmin pmax xmin xmax invert inversion offset r0 r1 := by
+  unfold Gen.RescaleTx.determine_rescaled_bounds determineRescaledBounds
+  by_cases hx : xmin = xmax
+  · simp [hx]
+  · cases inversion <;> cases invert <;> simp [hx, two] <;> norm_num
+
+example : Gen.RescaleTx.determine_rescaled_bounds (1 : ℚ) 3 1 3 Edge.upper true 0 (-1) 1 = some (-1, 1) := by
+  norm_num [Gen.RescaleTx.determine_rescaled_bounds]
+
 end source
 
 end NessaiVerif.C07
